@@ -62,6 +62,7 @@ func main() {
 			evalopts.EnvVariable("ve", system.Collection{}),
 			evalopts.EnvVariable("vs", system.String("str")),
 			evalopts.EnvVariable("vm", system.Collection{system.Integer(1), system.Integer(2)}),
+			evalopts.EnvVariable("vmb", system.Collection{system.Boolean(true), system.Boolean(false)}),
 		}
 	}
 	// absolute operand text of a form = text of its asbool case
